@@ -34,9 +34,13 @@ LOOKALIKES = [
 ]
 
 
+KEY = [0]
+
+
 def flight(tr, pid=0, flip=-1, trunc=0, as_prefix=-1, valid=True, no_reg=False, flip_end=0, tag_of=""):
+    KEY[0] += 1          # the station holds three private keys: tags are obfuscated to each of them in turn
     return {"flight": {"transport": tr, "prefix_id": pid, "flip": flip, "trunc": trunc, "as_prefix": as_prefix,
-                       "valid": valid, "no_reg": no_reg, "flip_end": flip_end, "tag_of": tag_of}}
+                       "valid": valid, "no_reg": no_reg, "flip_end": flip_end, "tag_of": tag_of, "key": KEY[0] % 3}}
 
 
 def gen_cases(ctx, table, scale):
